@@ -63,7 +63,7 @@ pub struct Docs<'a> {
 }
 
 impl<'a> Docs<'a> {
-    fn fresh_doc(&mut self, loose: f64) -> String {
+    pub fn fresh_doc(&mut self, loose: f64) -> String {
         self.counter += 1;
         let s = crate::rng::mix(self.seed, self.counter);
         if !self.params.fixtures.is_empty() && self.rng.chance(0.12) {
@@ -102,7 +102,7 @@ impl<'a> Docs<'a> {
 
     /// contents of one file / stdin, by class
     pub fn content(&mut self) -> Bytes {
-        let w = [22u32, 34, 9, 3, 3, 5, 4, 4, 3, 4, 5, 4];
+        let w = [22u32, 34, 9, 3, 3, 5, 4, 4, 3, 4, 5, 4, 5];
         match self.rng.weighted(&w) {
             0 => self.formatted(self.main_cfg).into(),
             1 => self.fresh_doc(0.7).into(),
@@ -154,8 +154,25 @@ impl<'a> Docs<'a> {
                 let other = gen_cfg(&mut self.rng).cfg();
                 self.formatted(other).into()
             }
+            12 => {
+                // formatted under the main configuration except for the order of import items:
+                // differs from its formatted form only when --reorder-import-items is given
+                let mut cfg = self.main_cfg;
+                cfg.reorder = false;
+                let mut s = String::new();
+                for k in 0..self.rng.range(1, 3) {
+                    let mut names: Vec<String> = (0..self.rng.range(2, 6)).map(|j| format!("{}{}zq{}x{}", self.rng.pick(&["b", "a", "zz", "m", "c"]), j, self.seed % 99991, self.counter + k as u64)).collect();
+                    self.rng.shuffle(&mut names);
+                    s.push_str(&format!("#import \"m{}.typ\": {}\n", k, names.join(", ")));
+                }
+                self.counter += 4;
+                match self.oracle.fmt(&s, cfg) {
+                    Fmt::Ok(f) => f.into(),
+                    _ => s.into(),
+                }
+            }
             _ => {
-                // unformatted but tiny
+                // (class 11) unformatted but tiny
                 let id = self.counter;
                 self.counter += 1;
                 format!("#let   zqt{}x{}  =  ( 1,2 ,3 )\n", self.seed % 9973, id).into()
@@ -246,13 +263,19 @@ pub fn gen_tree(rng: &mut Rng, docs: &mut Docs) -> Tree {
         tree.insert(t.clone(), Node::Dir);
     }
     let base = top.clone().unwrap_or_else(|| ".".into());
-    let n = match rng.below(10) {
-        0 => 0,
-        1..=4 => rng.range(1, 3),
-        5..=8 => rng.range(3, 7),
-        _ => rng.range(6, 12),
+    let wide = rng.chance(0.05);
+    let n = if wide {
+        // more eligible files than cores / than any small batch size
+        rng.range(17, 45)
+    } else {
+        match rng.below(10) {
+            0 => 0,
+            1..=4 => rng.range(1, 3),
+            5..=8 => rng.range(3, 7),
+            _ => rng.range(6, 12),
+        }
     };
-    for _ in 0..n {
+    for i in 0..n {
         // pick or create a directory
         let dirs: Vec<String> = dirs_of(&tree).into_iter().filter(|d| d == &base || is_below(d, &base) || base == ".").collect();
         let mut dir = rng.pick(&dirs).clone();
@@ -273,7 +296,13 @@ pub fn gen_tree(rng: &mut Rng, docs: &mut Docs) -> Tree {
                 continue; // empty directory
             }
         }
-        let mut name = if rng.chance(0.55) { rng.pick(TYP_NAMES).to_string() } else { rng.pick(FILE_NAMES).to_string() };
+        let mut name = if wide && rng.chance(0.85) {
+            format!("f{:02}.typ", i)
+        } else if rng.chance(0.55) {
+            rng.pick(TYP_NAMES).to_string()
+        } else {
+            rng.pick(FILE_NAMES).to_string()
+        };
         if !hidden && name.starts_with('.') {
             name = "a.typ".into();
         }
